@@ -154,7 +154,26 @@ def run(ctx: vlib.Ctx):
         texts.append(t)
     texts += bracket_cases()
     texts = list(dict.fromkeys(texts))
-    res = [r for ch in vlib.pmap(ctl_chunk, [texts[i:i + 500] for i in range(0, len(texts), 500)], chunksize=1) for r in ch]
+    # reader calls run under a deadline: a hang of the implementation is a violation of this property, not a timeout of the check
+    chunks = [texts[i:i + 250] for i in range(0, len(texts), 250)]
+    cres, unfinished = vlib.pmap_deadline(ctl_chunk, chunks, 240 if not ctx.thorough else 1800)
+    hangs = 0
+    for ci in unfinished:
+        fixed = []
+        for x in chunks[ci]:
+            if hangs >= 3:
+                fixed.append({"tokenize": None, "parse": None, "parse_with_warnings": None, "parse_meta_only": None})
+                continue
+            kind, val = vlib.run_with_timeout(ctl_chunk, [x], 10)
+            if kind == "ok":
+                fixed.append(val[0])
+            else:
+                hangs += 1
+                fixed.append({"tokenize": "HANG", "parse": "HANG", "parse_with_warnings": "HANG", "parse_meta_only": "HANG"})
+                ctx.failures.append({"case": {"text": x[:3000]}, "why": f"the reader did not return within 10 s on a {len(x)}-character input ({kind}): hang / super-linear blow-up",
+                                     "why_class": "hang"})
+        cres[ci] = fixed
+    res = [r for ch in cres for r in ch]
     # correspondence (view: exception class of parse_with_warnings / parse / tokenize)
     short = [i for i, x in enumerate(texts) if len(x) < 4000]
     drv = proj.driver()
@@ -164,7 +183,7 @@ def run(ctx: vlib.Ctx):
         case = {"text": x if len(x) < 3000 else x[:3000] + f"…(+{len(x) - 3000} chars)"}
         ctx.case({"text": x})
         for name, v in r.items():
-            if v is not None and v not in ("LexerError", "ParserError"):
+            if v is not None and v not in ("LexerError", "ParserError", "HANG"):
                 X.classify(ctx, findings, CLASSES, dict(case, entry=name), f"{name} raised {v} instead of returning or raising LexerError/ParserError", "foreign-exception:" + name)
             ctx.count(f"{name}:{'ok' if v is None else v.split(':')[0]}")
         if i in mw:
@@ -173,11 +192,16 @@ def run(ctx: vlib.Ctx):
                     ctx.count("model_unsupported")
                     continue
                 mc = m["err"][0] if "err" in m else None
-                if mc != r[name] and not (r[name] or "").startswith("FOREIGN") and r[name] != "RecursionError":
+                if mc != r[name] and not (r[name] or "").startswith("FOREIGN") and r[name] not in ("RecursionError", "HANG"):
                     X.corr(ctx, dict(case, entry=name), "exception class (or none)", mc, r[name])
     # scaling on a deterministic cost
     base = 40 if not ctx.thorough else 200
-    rows = [r for ch in vlib.pmap(scaling_chunk, [[(n, base)] for n in FAMILIES], chunksize=1) for r in ch]
+    srows, sunf = vlib.pmap_deadline(scaling_chunk, [[(n, base)] for n in FAMILIES], 200 if not ctx.thorough else 1500)
+    fams = list(FAMILIES)
+    for ci in sunf:
+        ctx.failures.append({"case": {"family": fams[ci], "text": FAMILIES[fams[ci]](3)}, "why": f"size-scaled family {fams[ci]} did not finish within the deadline: super-linear blow-up or hang",
+                             "why_class": "scaling-hang:" + fams[ci]})
+    rows = [r for ch in srows if ch for r in ch]
     ctx.extra["scaling_cost_line_events"] = rows
     for row in rows:
         for fn in ("tokenize", "parse_with_warnings"):
